@@ -394,6 +394,19 @@ func (c *Ctx) Eq(a, b *Term) *Term {
 	if a.isConst && b.op == "zext" && b.sort.W <= 64 {
 		return c.Eq(b, a)
 	}
+	if a.sort.K == KBV && (a.op == "concat" || b.op == "concat") {
+		var k int
+		if a.op == "concat" {
+			k = a.args[1].sort.W
+		} else {
+			k = b.args[1].sort.W
+		}
+		ah, al, ok1 := c.splitAt(a, k)
+		bh, bl, ok2 := c.splitAt(b, k)
+		if ok1 && ok2 {
+			return c.And(c.Eq(ah, bh), c.Eq(al, bl))
+		}
+	}
 	if a.id > b.id {
 		a, b = b, a
 	}
@@ -425,6 +438,37 @@ func (c *Ctx) bvbin(op string, a, b *Term) *Term {
 		} else {
 			if r := foldBig(op, a.BigVal(), b.BigVal(), w); r != nil {
 				return c.BVBig(r, w)
+			}
+		}
+	}
+	// byte-assembly normal form: (zext lo) | (Y << k)  ==>  concat(Y[w-k-1:0], lo[k-1:0])
+	if op == "bvor" || op == "bvxor" || op == "bvadd" {
+		for pass := 0; pass < 2; pass++ {
+			x, y := a, b
+			if pass == 1 {
+				x, y = b, a
+			}
+			if y.op == "bvshl" && y.args[1].isConst && y.args[1].cbig == nil {
+				k := int(y.args[1].cv)
+				if k > 0 && k < w && lowWidth(x) <= k {
+					return c.Concat(c.Extract(y.args[0], w-k-1, 0), c.Extract(x, k-1, 0))
+				}
+			}
+		}
+	}
+	// bit-wise operators distribute over aligned concatenations
+	if op == "bvand" || op == "bvor" || op == "bvxor" {
+		var k int
+		if a.op == "concat" {
+			k = a.args[1].sort.W
+		} else if b.op == "concat" {
+			k = b.args[1].sort.W
+		}
+		if k > 0 {
+			ah, al, ok1 := c.splitAt(a, k)
+			bh, bl, ok2 := c.splitAt(b, k)
+			if ok1 && ok2 {
+				return c.Concat(c.bvbin(op, ah, bh), c.bvbin(op, al, bl))
 			}
 		}
 	}
@@ -525,6 +569,30 @@ func (c *Ctx) bvbin(op string, a, b *Term) *Term {
 		if a == b {
 			return c.zero(w)
 		}
+		// (p ^ q) ^ q = p
+		if a.op == "bvxor" {
+			if a.args[0] == b {
+				return a.args[1]
+			}
+			if a.args[1] == b {
+				return a.args[0]
+			}
+		}
+		if b.op == "bvxor" {
+			if b.args[0] == a {
+				return b.args[1]
+			}
+			if b.args[1] == a {
+				return b.args[0]
+			}
+		}
+		// constants together: (p ^ k1) ^ k2
+		if b.isConst && a.op == "bvxor" && a.args[1].isConst {
+			return c.bvbin("bvxor", a.args[0], c.bvbin("bvxor", a.args[1], b))
+		}
+		if a.isConst && !b.isConst {
+			a, b = b, a
+		}
 	case "bvshl", "bvlshr", "bvashr":
 		if isZero(b) {
 			return a
@@ -547,6 +615,42 @@ func (c *Ctx) bvbin(op string, a, b *Term) *Term {
 }
 
 func (c *Ctx) zero(w int) *Term { return c.BVConst(0, w) }
+
+// lowWidth returns k such that all bits at positions >= k are known to be zero.
+func lowWidth(t *Term) int {
+	switch {
+	case t.isConst:
+		return t.BigVal().BitLen()
+	case t.op == "zext":
+		return lowWidth(t.args[0])
+	case t.op == "concat":
+		h := lowWidth(t.args[0])
+		if h == 0 {
+			return lowWidth(t.args[1])
+		}
+		return t.args[1].sort.W + h
+	}
+	return t.sort.W
+}
+
+// splitAt views a term as concat(hi, lo) with lo of width k, when that is free.
+func (c *Ctx) splitAt(t *Term, k int) (*Term, *Term, bool) {
+	w := t.sort.W
+	if k <= 0 || k >= w {
+		return nil, nil, false
+	}
+	if t.isConst {
+		return c.Extract(t, w-1, k), c.Extract(t, k-1, 0), true
+	}
+	if t.op == "concat" && t.args[1].sort.W == k {
+		return t.args[0], t.args[1], true
+	}
+	if t.op == "zext" && t.args[0].sort.W <= k {
+		return c.zero(w - k), c.ZExt(t.args[0], k), true
+	}
+	// any term can be viewed as the concatenation of two extracts
+	return c.Extract(t, w-1, k), c.Extract(t, k-1, 0), true
+}
 
 func isZero(t *Term) bool {
 	if !t.isConst {
